@@ -274,6 +274,9 @@ pub fn c01(cfg: &Cfg, idx: u64, st: &mut Stats) {
     let big = rng.chance(1, 8);
     let (task, _) = if rng.chance(1, 8) {
         gen::wide_task(&mut rng, false)
+    } else if rng.chance(1, 16) {
+        st.count("probe.c01_sibling_nodes_with_equal_fnv64", 1);
+        gen::fnv_colliding_task(&mut rng)
     } else {
         gen::legal_task(&mut rng, if big { 400 } else { 40 })
     };
@@ -1747,6 +1750,38 @@ pub fn c13_cases(cfg: &Cfg) -> Vec<MemBuildCase> {
             bufcap: None,
             every: 1000,
             shape: shapes[i % shapes.len()],
+            bulk: false,
+            bulk_stream: false,
+            rejects: 0,
+            reject_run: 0,
+        });
+    }
+    // long keys with distinct tails (65 .. 1000 bytes: deeper than any
+    // pre-sized stack or depth threshold)
+    for (i, (l, n, g)) in [(65u32, 300_000u64, None), (200, 100_000, Some((64usize, 2usize))), (1000, 20_000, None), (300, 60_000, Some((3, 3)))].iter().enumerate() {
+        out.push(MemBuildCase {
+            fam: KeyFamily { n: *n, fanout: 26, keylen: *l, seed: seed ^ 0x10f9 ^ i as u64, pairs: i == 1, leaf_fan: 0, decreasing: false, repeat: 1, sec_vocab: 0, sec_parents: 0 },
+            map: i % 2 == 0,
+            registry: *g,
+            bufcap: None,
+            every: 1000,
+            shape: shapes[i % shapes.len()],
+            bulk: false,
+            bulk_stream: false,
+            rejects: 0,
+            reject_run: 0,
+        });
+    }
+    // one builder that emits more than 64 MiB (2^26 bytes), and one more than
+    // 128 MiB: thresholds on the number of bytes written
+    for (i, (n, g)) in [(6_000_000u64, Some((64usize, 2usize))), (11_000_000, None)].iter().enumerate() {
+        out.push(MemBuildCase {
+            fam: KeyFamily { n: *n, fanout: 26, keylen: 12, seed: seed ^ 0xb16 ^ i as u64, pairs: false, leaf_fan: 0, decreasing: false, repeat: 1, sec_vocab: 0, sec_parents: 0 },
+            map: i == 0,
+            registry: *g,
+            bufcap: None,
+            every: 10_000,
+            shape: Shape::Full,
             bulk: false,
             bulk_stream: false,
             rejects: 0,
